@@ -380,11 +380,13 @@ Definition max_state (w : world) (x : nat) : option Z :=
                  | _, _ => None end) (item_effects w it) (Some State_offline)
   end.
 
-(* container[total:] of a Python list *)
-Definition py_slice_from {A} (l : list A) (t : Z) : list A :=
-  let n := Z.of_nat (length l) in
-  let start := if t <? 0 then Z.max (n + t) 0 else t in
-  skipn (Z.to_nat start) l.
+(* container[max(total, 0):] — the slots beyond those the ship provides
+   (counted in Z: slot totals are arbitrary modified attribute values) *)
+Fixpoint slice_from {A} (l : list A) (t : Z) : list A :=
+  match l with
+  | [] => []
+  | x :: r => if t <=? 0 then l else slice_from r (t - 1)
+  end.
 
 (* ItemClassRestriction.CLASS_VALIDATORS *)
 Definition VALIDATED_CLASSES : list icls :=
@@ -472,7 +474,7 @@ Section Rules.
   Definition v_stat_slot (reg : rid) (holder : option nat) (attr : Z) : M rres :=
     bind (holder_attr holder attr) (fun v =>
     ret (slot_entries (zlen (tr reg)) (slot_total v) (map (fun x => Some x) (items_of reg)))).
-  (* ordered.py (repaired: empty slots are skipped) *)
+  (* ordered.py (repaired: empty slots are skipped, a negative total counts as 0) *)
   Definition rack_of (k : rackk) : list (option nat) :=
     match get_fit w f with Some ft => fit_rack ft k | None => [] end.
   Definition v_ordered (k : rackk) (attr : Z) : M rres :=
@@ -480,7 +482,7 @@ Section Rules.
     let total := slot_total v in
     ret (slot_entries (zlen (rack_of k)) total
                       (filter (fun o => match o with Some _ => true | None => false end)
-                              (py_slice_from (rack_of k) total)))).
+                              (slice_from (rack_of k) total)))).
   (* unordered.py *)
   Definition set_of (k : setk) : list nat :=
     match get_fit w f with Some ft => fit_setc ft k | None => [] end.
